@@ -136,4 +136,749 @@ theorem polyExt_one (pt : List Rat) : Poly.eval polyExt.one pt = 1 := by
 
 end PolyEval
 
+
+/-! ### index routing: the operator shapes are the mathematical operators (no law assumed) -/
+
+section Routing
+variable (ops : FieldOps F)
+
+theorem getD_map_range {α : Type} (n i : Nat) (g : Nat → α) (dflt : α) (h : i < n) :
+    ((List.range n).map g).getD i dflt = g i := by
+  simp [List.getD_eq_getElem?_getD, h]
+
+theorem sum_congr (n : Nat) {g g' : Nat → F} (h : ∀ i, i < n → g i = g' i) :
+    ops.sum n g = ops.sum n g' := by
+  unfold FieldOps.sum
+  congr 1
+  apply List.map_congr_left
+  intro i hi
+  exact h i (List.mem_range.mp hi)
+
+/-- entry `i` of `grad(f, argnum = x)` is `∂i f` -/
+theorem nth_gradX (d i : Nat) (f : F) (h : i < d) : nth ops (gradX ops d f) i = ops.dX i f := by
+  unfold nth gradX
+  exact getD_map_range d i _ _ h
+
+/-- `jnp.trace(jax.hessian(u))` is `Σ_{i<d} ∂i ∂i u`, in every dimension -/
+theorem lapRev_eq_laplacian (d : Nat) (f : F) : lapRev ops d f = laplacian ops d f := by
+  unfold lapRev laplacian trace hessX
+  apply sum_congr
+  intro i hi
+  rw [getD_map_range d i _ _ hi, getD_map_range d i _ _ hi]
+
+/-- the divergence scan is `Σ_{i<d} ∂i u_i`, in every dimension -/
+theorem divRev_eq_divergence (d : Nat) (u : Nat → F) : divRev ops d u = divergence ops d u := by
+  unfold divRev divergence
+  apply sum_congr
+  intro i hi
+  exact nth_gradX ops d i (u i) hi
+
+/-- component `j` of the vector Laplacian is the Laplacian of component `j`, for every `j < m` -/
+theorem vecLap_nth (d m j : Nat) (u : Nat → F) (h : j < m) :
+    nth ops (vecLap ops d m u) j = laplacian ops d (u j) := by
+  unfold nth vecLap
+  rw [getD_map_range m j _ _ h, lapRev_eq_laplacian]
+
+theorem vecLap_length (d m : Nat) (u : Nat → F) : (vecLap ops d m u).length = m := by
+  simp [vecLap]
+
+/-- the two explicit advection components are `u_0 ∂0 u_k + u_1 ∂1 u_k` -/
+theorem advRev_nth (u : Nat → F) (k : Nat) (h : k < 2) :
+    nth ops (advRev ops u) k =
+      ops.add (ops.mul (u 0) (ops.dX 0 (u k))) (ops.mul (u 1) (ops.dX 1 (u k))) := by
+  have h0 : ∀ f, nth ops (gradX ops 2 f) 0 = ops.dX 0 f := fun f => nth_gradX ops 2 0 f (by omega)
+  have h1 : ∀ f, nth ops (gradX ops 2 f) 1 = ops.dX 1 f := fun f => nth_gradX ops 2 1 f (by omega)
+  unfold advRev
+  simp only [h0, h1]
+  match k, h with
+  | 0, _ => rfl
+  | 1, _ => rfl
+
+/-- Burgers: the code (`grad(u_, 1)`, then `grad` of its entry `[0]`) is the documented expression -/
+theorem burgers_eq_doc (Tmax nu : Rat) (u : F) : burgers ops Tmax nu u = burgersDoc ops Tmax nu u := rfl
+
+/-- mass conservation in two dimensions is the divergence -/
+theorem massConservation_eq_doc (u : Nat → F) : massConservation ops 2 u = massDoc ops u :=
+  divRev_eq_divergence ops 2 u
+
+/-- Fokker–Planck: which slice of which gradient — the first-order part is `∂0(μ_0 u) + ∂1(μ_1 u)` and the
+    four second-order terms are `∂0∂0(u D_00) + ∂0∂1(u D_10) + ∂1∂0(u D_01) + ∂1∂1(u D_11)`, i.e.
+    `Σ_i Σ_j ∂j ∂i (u D_ij)`: the inner derivative follows the FIRST index of `D`. -/
+theorem fpe2D_routing (Tmax : Rat) (drift : Nat → F) (diff : Nat → Nat → F) (u : F) :
+    fpe2D ops Tmax drift diff u =
+      ops.add (ops.neg (ops.dT u))
+        (ops.smul Tmax
+          (ops.add
+            (ops.neg (ops.add (ops.dX 0 (ops.mul (drift 0) u)) (ops.dX 1 (ops.mul (drift 1) u))))
+            (ops.add (ops.add (ops.add
+              (ops.dX 0 (ops.dX 0 (ops.mul u (diff 0 0))))
+              (ops.dX 0 (ops.dX 1 (ops.mul u (diff 1 0)))))
+              (ops.dX 1 (ops.dX 0 (ops.mul u (diff 0 1)))))
+              (ops.dX 1 (ops.dX 1 (ops.mul u (diff 1 1))))))) := rfl
+
+/-- Navier–Stokes returns two components -/
+theorem navierStokes_length (nu rho : Rat) (u : Nat → F) (p : F) :
+    (navierStokes ops nu rho u p).length = 2 := rfl
+
+/-- Navier–Stokes, component `k < 2`: advection component `k`, `ρ⁻¹ ∂k p` (`jac_p[0, k]`), `ν` times the
+    Laplacian of `u_k` -/
+theorem navierStokes_nth (nu rho : Rat) (u : Nat → F) (p : F) (k : Nat) (h : k < 2) :
+    nth ops (navierStokes ops nu rho u p) k =
+      ops.sub
+        (ops.add (ops.add (ops.mul (u 0) (ops.dX 0 (u k))) (ops.mul (u 1) (ops.dX 1 (u k))))
+          (ops.smul (1 / rho) (ops.dX k p)))
+        (ops.smul nu (laplacian ops 2 (u k))) := by
+  have ha : ∀ k, k < 2 → (advRev ops u).getD k ops.zero = _ := fun k hk => advRev_nth ops u k hk
+  have hl : ∀ k, k < 2 → (vecLap ops 2 2 u).getD k ops.zero = _ := fun k hk => vecLap_nth ops 2 2 k u hk
+  have hp : ∀ k, k < 2 → nth2 ops [gradX ops 2 p] 0 k = ops.dX k p := fun k hk => by
+    unfold nth2; exact nth_gradX ops 2 k p hk
+  unfold navierStokes
+  match k, h with
+  | 0, _ =>
+    simp only [nth, List.getD_cons_zero]
+    rw [ha 0 (by omega), hl 0 (by omega), hp 0 (by omega)]
+  | 1, _ =>
+    simp only [nth, List.getD_cons_succ, List.getD_cons_zero]
+    rw [ha 1 (by omega), hl 1 (by omega), hp 1 (by omega)]
+
+end Routing
+
+
+/-! ### values at a point: documented expression, Tmax, role of every parameter, vanishing -/
+
+section Pointwise
+variable {ops : FieldOps F} {ev : F → Rat}
+
+theorem ev_sub (h : EvalHom ops ev) (a b : F) : ev (ops.sub a b) = ev a - ev b := by
+  unfold FieldOps.sub
+  rw [h.add, h.neg]
+  ring
+
+theorem ev_foldr (h : EvalHom ops ev) (l : List Nat) (g : Nat → F) :
+    ev ((l.map g).foldr ops.add ops.zero) = (l.map (fun i => ev (g i))).sum := by
+  induction l with
+  | nil => simpa using h.zero
+  | cons a l ih => simp only [List.map_cons, List.foldr_cons, List.sum_cons, h.add, ih]
+
+/-- the value of `Σ_{i<n} g i` is the sum of the values -/
+theorem ev_sum (h : EvalHom ops ev) (n : Nat) (g : Nat → F) :
+    ev (ops.sum n g) = ((List.range n).map (fun i => ev (g i))).sum :=
+  ev_foldr h (List.range n) g
+
+theorem ev_sum_two (h : EvalHom ops ev) (g : Nat → F) : ev (ops.sum 2 g) = ev (g 0) + ev (g 1) := by
+  rw [ev_sum h]
+  have : List.range 2 = [0, 1] := rfl
+  rw [this]
+  simp
+
+theorem ev_const (h : EvalHom ops ev) {ext : FieldExt F} (h1 : ev ext.one = 1) (c : Rat) :
+    ev (const ops ext c) = c := by
+  unfold const
+  rw [h.smul, h1]
+  ring
+
+/-- `Δu` at the point: `Σ_{i<d} (∂i∂i u)(pt)` -/
+def lapAt (ops : FieldOps F) (ev : F → Rat) (d : Nat) (u : F) : Rat :=
+  ((List.range d).map (fun i => ev (ops.dX i (ops.dX i u)))).sum
+
+theorem ev_laplacian (h : EvalHom ops ev) (d : Nat) (u : F) : ev (laplacian ops d u) = lapAt ops ev d u :=
+  ev_sum h d _
+
+/-! #### Burgers -/
+
+theorem burgers_value (h : EvalHom ops ev) (Tmax nu : Rat) (u : F) :
+    ev (burgers ops Tmax nu u) =
+      ev (ops.dT u) + Tmax * (ev u * ev (ops.dX 0 u) - nu * ev (ops.dX 0 (ops.dX 0 u))) := by
+  rw [burgers_eq_doc]
+  unfold burgersDoc
+  rw [h.add, h.smul, ev_sub h, h.mul, h.smul]
+
+/-- **Tmax** multiplies exactly the non-time terms -/
+theorem burgers_tmax (h : EvalHom ops ev) (Tmax nu : Rat) (u : F) :
+    ev (burgers ops Tmax nu u) - ev (ops.dT u) = Tmax * (ev (burgers ops 1 nu u) - ev (ops.dT u)) := by
+  rw [burgers_value h, burgers_value h]
+  ring
+
+/-- the residual is affine in the viscosity, with slope `−Tmax · ∂0∂0u` -/
+theorem burgers_affine_nu (h : EvalHom ops ev) (Tmax nu : Rat) (u : F) :
+    ev (burgers ops Tmax nu u) =
+      ev (burgers ops Tmax 0 u) + nu * (-(Tmax * ev (ops.dX 0 (ops.dX 0 u)))) := by
+  rw [burgers_value h, burgers_value h]
+  ring
+
+/-- the residual vanishes exactly where `∂t u = Tmax (ν ∂x∂x u − u ∂x u)` -/
+theorem burgers_vanishes_iff (h : EvalHom ops ev) (Tmax nu : Rat) (u : F) :
+    ev (burgers ops Tmax nu u) = 0 ↔
+      ev (ops.dT u) = Tmax * (nu * ev (ops.dX 0 (ops.dX 0 u)) - ev u * ev (ops.dX 0 u)) := by
+  rw [burgers_value h]
+  constructor <;> intro hh <;> linarith
+
+/-! #### Fisher-KPP -/
+
+variable {ext : FieldExt F}
+
+theorem fisherKPP_value (h : EvalHom ops ev) (h1 : ev ext.one = 1) (d : Nat) (Tmax D r g : Rat) (u : F) :
+    ev (fisherKPP ops ext d Tmax D r g u) =
+      ev (ops.dT u) + Tmax * (-(D * lapAt ops ev d u) - ev u * (r - g * ev u)) := by
+  unfold fisherKPP
+  simp only [h.add, h.smul, ev_sub h, h.mul, ev_const h h1, lapRev_eq_laplacian, ev_laplacian h]
+  ring
+
+/-- the code `∂t u + Tmax (−D·tr Hess u − u (r − g u))` is the documented `∂t u − Tmax (D Δu + u (r − γ u))` -/
+theorem fisherKPP_eq_doc (h : EvalHom ops ev) (h1 : ev ext.one = 1) (d : Nat) (Tmax D r g : Rat) (u : F) :
+    ev (fisherKPP ops ext d Tmax D r g u) = ev (fisherDoc ops ext d Tmax D r g u) := by
+  rw [fisherKPP_value h h1]
+  unfold fisherDoc
+  simp only [h.add, h.smul, ev_sub h, h.mul, ev_const h h1, ev_laplacian h]
+  ring
+
+theorem fisherKPP_tmax (h : EvalHom ops ev) (h1 : ev ext.one = 1) (d : Nat) (Tmax D r g : Rat) (u : F) :
+    ev (fisherKPP ops ext d Tmax D r g u) - ev (ops.dT u) =
+      Tmax * (ev (fisherKPP ops ext d 1 D r g u) - ev (ops.dT u)) := by
+  rw [fisherKPP_value h h1, fisherKPP_value h h1]
+  ring
+
+/-- role of `D`, `r`, `g`: affine in each, with slopes `−Tmax Δu`, `−Tmax u`, `+Tmax u²` -/
+theorem fisherKPP_affine (h : EvalHom ops ev) (h1 : ev ext.one = 1) (d : Nat) (Tmax D r g : Rat) (u : F) :
+    ev (fisherKPP ops ext d Tmax D r g u) =
+      ev (fisherKPP ops ext d Tmax 0 0 0 u)
+        + D * (-(Tmax * lapAt ops ev d u)) + r * (-(Tmax * ev u)) + g * (Tmax * (ev u * ev u)) := by
+  rw [fisherKPP_value h h1, fisherKPP_value h h1]
+  ring
+
+/-- the residual vanishes exactly where `∂t u = Tmax (D Δu + u (r − γ u))` -/
+theorem fisherKPP_vanishes_iff (h : EvalHom ops ev) (h1 : ev ext.one = 1) (d : Nat) (Tmax D r g : Rat)
+    (u : F) :
+    ev (fisherKPP ops ext d Tmax D r g u) = 0 ↔
+      ev (ops.dT u) = Tmax * (D * lapAt ops ev d u + ev u * (r - g * ev u)) := by
+  rw [fisherKPP_value h h1]
+  constructor <;> intro hh <;> linarith
+
+/-! #### Fokker–Planck 2D -/
+
+theorem fpe2D_value (h : EvalHom ops ev) (Tmax : Rat) (drift : Nat → F) (diff : Nat → Nat → F) (u : F) :
+    ev (fpe2D ops Tmax drift diff u) =
+      -ev (ops.dT u) + Tmax *
+        (-(ev (ops.dX 0 (ops.mul (drift 0) u)) + ev (ops.dX 1 (ops.mul (drift 1) u)))
+          + (ev (ops.dX 0 (ops.dX 0 (ops.mul u (diff 0 0)))) + ev (ops.dX 0 (ops.dX 1 (ops.mul u (diff 1 0))))
+            + ev (ops.dX 1 (ops.dX 0 (ops.mul u (diff 0 1)))) + ev (ops.dX 1 (ops.dX 1 (ops.mul u (diff 1 1)))))) := by
+  rw [fpe2D_routing]
+  simp only [h.add, h.smul, h.neg]
+
+/-- the documented double sum, at a point -/
+theorem fpeDoc_value (h : EvalHom ops ev) (Tmax : Rat) (drift : Nat → F) (diff : Nat → Nat → F) (u : F) :
+    ev (fpeDoc ops Tmax drift diff u) =
+      -ev (ops.dT u) + Tmax *
+        (-(ev (ops.dX 0 (ops.mul (drift 0) u)) + ev (ops.dX 1 (ops.mul (drift 1) u)))
+          + (ev (ops.dX 0 (ops.dX 0 (ops.mul u (diff 0 0)))) + ev (ops.dX 0 (ops.dX 1 (ops.mul u (diff 0 1))))
+            + (ev (ops.dX 1 (ops.dX 0 (ops.mul u (diff 1 0)))) + ev (ops.dX 1 (ops.dX 1 (ops.mul u (diff 1 1))))))) := by
+  unfold fpeDoc
+  simp only [h.add, h.smul, h.neg, ev_sum_two h]
+
+/-- the four explicit second-order terms are the documented double sum `Σ_i Σ_j ∂i∂j (u D_ij)` as soon as
+    the diffusion matrix is symmetric (the code pairs `∂0∂1` with `D_10` and `∂1∂0` with `D_01`) -/
+theorem fpe2D_eq_doc_of_symm (h : EvalHom ops ev) (Tmax : Rat) (drift : Nat → F) (diff : Nat → Nat → F)
+    (u : F) (hs : diff 0 1 = diff 1 0) :
+    ev (fpe2D ops Tmax drift diff u) = ev (fpeDoc ops Tmax drift diff u) := by
+  rw [fpe2D_value h, fpeDoc_value h, hs]
+  ring
+
+/-- … or as soon as the cross partial derivatives commute -/
+theorem fpe2D_eq_doc_of_comm (h : EvalHom ops ev) (Tmax : Rat) (drift : Nat → F) (diff : Nat → Nat → F)
+    (u : F) (hc : ∀ a, ops.dX 0 (ops.dX 1 a) = ops.dX 1 (ops.dX 0 a)) :
+    ev (fpe2D ops Tmax drift diff u) = ev (fpeDoc ops Tmax drift diff u) := by
+  rw [fpe2D_value h, fpeDoc_value h, hc, hc]
+  ring
+
+theorem fpe2D_tmax (h : EvalHom ops ev) (Tmax : Rat) (drift : Nat → F) (diff : Nat → Nat → F) (u : F) :
+    ev (fpe2D ops Tmax drift diff u) + ev (ops.dT u) =
+      Tmax * (ev (fpe2D ops 1 drift diff u) + ev (ops.dT u)) := by
+  rw [fpe2D_value h, fpe2D_value h]
+  ring
+
+theorem ouDiffusion_diag (sigma : List Rat) (i : Nat) :
+    ouDiffusion sigma i i = (1 / 2 : Rat) * (if i < 2 then sigma.getD i 0 * sigma.getD i 0 else 0) := by
+  unfold ouDiffusion sigmaMat
+  have : List.range 2 = [0, 1] := rfl
+  rw [this]
+  match i with
+  | 0 => simp
+  | 1 => simp
+  | (k + 2) => simp
+
+theorem ouDiffusion_offdiag (sigma : List Rat) (i j : Nat) (hij : i ≠ j) : ouDiffusion sigma i j = 0 := by
+  unfold ouDiffusion sigmaMat
+  have : List.range 2 = [0, 1] := rfl
+  rw [this]
+  simp only [List.map_cons, List.map_nil, List.foldr_cons, List.foldr_nil]
+  by_cases h0 : i = 0 <;> by_cases h1 : j = 0 <;> by_cases h2 : i = 1 <;> by_cases h3 : j = 1 <;>
+    simp [h0, h1, h2, h3] <;> omega
+
+theorem ouDiffusion_symm (sigma : List Rat) (i j : Nat) : ouDiffusion sigma i j = ouDiffusion sigma j i := by
+  by_cases hij : i = j
+  · rw [hij]
+  · rw [ouDiffusion_offdiag sigma i j hij, ouDiffusion_offdiag sigma j i (Ne.symm hij)]
+
+/-- OU: the code is the documented Fokker–Planck residual with `μ_i = α_i(μ⁰_i − x_i)`, `D = ½ σσᵀ` -/
+theorem ouFPE_eq_doc (h : EvalHom ops ev) (Tmax : Rat) (alpha mu sigma : List Rat) (u : F) :
+    ev (ouFPE ops ext Tmax alpha mu sigma u) = ev (ouDoc ops ext Tmax alpha mu sigma u) := by
+  unfold ouFPE ouDoc
+  apply fpe2D_eq_doc_of_symm h
+  show const ops ext (ouDiffusion sigma 0 1) = const ops ext (ouDiffusion sigma 1 0)
+  rw [ouDiffusion_symm]
+
+theorem ouFPE_tmax (h : EvalHom ops ev) (Tmax : Rat) (alpha mu sigma : List Rat) (u : F) :
+    ev (ouFPE ops ext Tmax alpha mu sigma u) + ev (ops.dT u) =
+      Tmax * (ev (ouFPE ops ext 1 alpha mu sigma u) + ev (ops.dT u)) :=
+  fpe2D_tmax h _ _ _ _
+
+end Pointwise
+
+
+/-! ### with the laws of differentiation: the Ornstein–Uhlenbeck corollaries
+
+`LawfulDeriv` (linearity, Leibniz, `∂i 1 = 0`, `∂i x_j = δ_ij`) is ASSUMED here, as equalities of fields.
+It holds for differentiation of smooth functions.  It is not provable for the list representation of
+`polyOps` (there the two sides are equal as polynomials but not as lists of monomials), so the
+statements stay generic over the lawful structure. -/
+
+section Lawful
+variable {ops : FieldOps F} {ev : F → Rat} {ext : FieldExt F}
+
+theorem ev_dX_mul_const (h : EvalHom ops ev) (h1 : ev ext.one = 1) (L : LawfulDeriv ops ext) (i : Nat)
+    (a : F) (c : Rat) :
+    ev (ops.dX i (ops.mul a (const ops ext c))) = c * ev (ops.dX i a) := by
+  unfold const
+  simp only [L.dX_mul, L.dX_smul, L.dX_one, h.add, h.mul, h.smul, h.zero, h1]
+  ring
+
+theorem ev_dX_dX_mul_const (h : EvalHom ops ev) (h1 : ev ext.one = 1) (L : LawfulDeriv ops ext) (i j : Nat)
+    (a : F) (c : Rat) :
+    ev (ops.dX i (ops.dX j (ops.mul a (const ops ext c)))) = c * ev (ops.dX i (ops.dX j a)) := by
+  unfold const
+  simp only [L.dX_mul, L.dX_smul, L.dX_one, L.dX_add, L.dX_zero, h.add, h.mul, h.smul, h.zero, h1]
+  ring
+
+/-- **OU corollary**: with `D = ½ σσᵀ`, `σ` diagonal, the double sum `Σ_i Σ_j ∂i∂j(D_ij u)` collapses to
+    `Σ_i ½ σ_i² ∂i∂i u` -/
+theorem ou_second_order (h : EvalHom ops ev) (h1 : ev ext.one = 1) (L : LawfulDeriv ops ext) (sigma : List Rat) (u : F) :
+    ev (ops.sum 2 (fun i => ops.sum 2 (fun j =>
+        ops.dX i (ops.dX j (ops.mul u (const ops ext (ouDiffusion sigma i j))))))) =
+      (1 / 2 : Rat) * (sigma.getD 0 0 * sigma.getD 0 0) * ev (ops.dX 0 (ops.dX 0 u))
+        + (1 / 2 : Rat) * (sigma.getD 1 0 * sigma.getD 1 0) * ev (ops.dX 1 (ops.dX 1 u)) := by
+  simp only [ev_sum_two h, ev_dX_dX_mul_const h h1 L]
+  rw [ouDiffusion_offdiag sigma 0 1 (by omega), ouDiffusion_offdiag sigma 1 0 (by omega),
+    ouDiffusion_diag, ouDiffusion_diag]
+  simp only [show (0 : Nat) < 2 by omega, show (1 : Nat) < 2 by omega, if_true]
+  ring
+
+/-- the first-order OU term: `−∂i(α_i (μ_i − x_i) u) = α_i u − α_i (μ_i − x_i) ∂i u` -/
+theorem ou_first_order (h : EvalHom ops ev) (h1 : ev ext.one = 1) (L : LawfulDeriv ops ext)
+    (alpha mu : List Rat) (i : Nat) (u : F) :
+    ev (ops.dX i (ops.mul (ouDrift ops ext alpha mu i) u)) =
+      -(alpha.getD i 0) * ev u + alpha.getD i 0 * (mu.getD i 0 - ev (ext.coord i)) * ev (ops.dX i u) := by
+  unfold ouDrift const FieldOps.sub
+  simp only [L.dX_mul, L.dX_smul, L.dX_one, L.dX_add, L.dX_neg, L.dX_coord, h.add, h.mul, h.smul,
+    h.zero, h.neg, h1, if_true]
+  ring
+
+/-- **role of every OU parameter**: the residual at a point with coordinates `x_i = ev (coord i)` is
+    `−∂t u + Tmax·((α_0 + α_1) u − Σ_i α_i (μ_i − x_i) ∂i u + Σ_i ½ σ_i² ∂i∂i u)` -/
+theorem ouFPE_expanded (h : EvalHom ops ev) (h1 : ev ext.one = 1) (L : LawfulDeriv ops ext) (Tmax : Rat)
+    (alpha mu sigma : List Rat) (u : F) :
+    ev (ouFPE ops ext Tmax alpha mu sigma u) =
+      -ev (ops.dT u) + Tmax *
+        ((alpha.getD 0 0 + alpha.getD 1 0) * ev u
+          - alpha.getD 0 0 * (mu.getD 0 0 - ev (ext.coord 0)) * ev (ops.dX 0 u)
+          - alpha.getD 1 0 * (mu.getD 1 0 - ev (ext.coord 1)) * ev (ops.dX 1 u)
+          + (1 / 2 : Rat) * (sigma.getD 0 0 * sigma.getD 0 0) * ev (ops.dX 0 (ops.dX 0 u))
+          + (1 / 2 : Rat) * (sigma.getD 1 0 * sigma.getD 1 0) * ev (ops.dX 1 (ops.dX 1 u))) := by
+  unfold ouFPE
+  rw [fpe2D_value h]
+  simp only [ou_first_order h h1 L, ev_dX_dX_mul_const h h1 L]
+  rw [ouDiffusion_offdiag sigma 0 1 (by omega), ouDiffusion_offdiag sigma 1 0 (by omega),
+    ouDiffusion_diag, ouDiffusion_diag]
+  simp only [show (0 : Nat) < 2 by omega, show (1 : Nat) < 2 by omega, if_true]
+  ring
+
+/-- the OU residual vanishes exactly where the Fokker–Planck equation of the OU process holds -/
+theorem ouFPE_vanishes_iff (h : EvalHom ops ev) (h1 : ev ext.one = 1) (L : LawfulDeriv ops ext) (Tmax : Rat)
+    (alpha mu sigma : List Rat) (u : F) :
+    ev (ouFPE ops ext Tmax alpha mu sigma u) = 0 ↔
+      ev (ops.dT u) = Tmax *
+        ((alpha.getD 0 0 + alpha.getD 1 0) * ev u
+          - alpha.getD 0 0 * (mu.getD 0 0 - ev (ext.coord 0)) * ev (ops.dX 0 u)
+          - alpha.getD 1 0 * (mu.getD 1 0 - ev (ext.coord 1)) * ev (ops.dX 1 u)
+          + (1 / 2 : Rat) * (sigma.getD 0 0 * sigma.getD 0 0) * ev (ops.dX 0 (ops.dX 0 u))
+          + (1 / 2 : Rat) * (sigma.getD 1 0 * sigma.getD 1 0) * ev (ops.dX 1 (ops.dX 1 u))) := by
+  rw [ouFPE_expanded h h1 L]
+  constructor <;> intro hh <;> linarith
+
+end Lawful
+
+/-! ### generalized Lotka–Volterra (pointwise; no law needed: plain rational arithmetic) -/
+
+section GLV
+variable (ops : FieldOps F) (ev : F → Rat)
+
+theorem glvLoop_spec (c : Rat) (a : List Rat) (us : List F) (i : Nat) (ct it : Rat) :
+    glvLoop ev c a us i (ct, it) = (ct + c * total ev us, it + dotFrom ev a (i + 1) us) := by
+  induction us generalizing i ct it with
+  | nil => simp [glvLoop, total, dotFrom]
+  | cons u us ih =>
+    simp only [glvLoop, total, dotFrom, ih]
+    congr 1 <;> ring
+
+/-- the `enumerate(keys_other)` loop with `interactions[i + 1]` is the documented
+    `Σ_k a_k u_k` / `c Σ_k u_k` over `main :: others` (self-interaction at index 0) -/
+theorem glv_eq_doc (Tmax c r : Rat) (a : List Rat) (um : F) (uo : List F) :
+    glv ops ev Tmax c r a um uo = glvDoc ops ev Tmax c r a um uo := by
+  unfold glv glvDoc
+  by_cases h0 : ev um = 0
+  · simp [h0]
+  · simp only [h0, if_false, glvLoop_spec, total, dotFrom]
+    congr 2
+    ring
+
+/-- the guard: the residual is undefined exactly where `u_main(t) = 0` -/
+theorem glv_none_iff (Tmax c r : Rat) (a : List Rat) (um : F) (uo : List F) :
+    glv ops ev Tmax c r a um uo = none ↔ ev um = 0 := by
+  rw [glv_eq_doc]
+  unfold glvDoc
+  by_cases h0 : ev um = 0 <;> simp [h0]
+
+theorem glv_value (Tmax c r : Rat) (a : List Rat) (um : F) (uo : List F) (h0 : ev um ≠ 0) :
+    glv ops ev Tmax c r a um uo =
+      some (ev (ops.dT um) / ev um
+        + Tmax * (-r - dotFrom ev a 0 (um :: uo) + c * total ev (um :: uo))) := by
+  rw [glv_eq_doc]
+  unfold glvDoc
+  simp [h0]
+
+/-- **Tmax** multiplies everything but the logarithmic derivative -/
+theorem glv_tmax (Tmax c r : Rat) (a : List Rat) (um : F) (uo : List F) (v v1 : Rat)
+    (hv : glv ops ev Tmax c r a um uo = some v) (hv1 : glv ops ev 1 c r a um uo = some v1) :
+    v - ev (ops.dT um) / ev um = Tmax * (v1 - ev (ops.dT um) / ev um) := by
+  have h0 : ev um ≠ 0 := fun h => by
+    rw [(glv_none_iff ops ev Tmax c r a um uo).mpr h] at hv; cases hv
+  rw [glv_value ops ev _ _ _ _ _ _ h0] at hv hv1
+  cases hv; cases hv1
+  ring
+
+/-- role of the growth rate and of the carrying capacity: affine, slopes `−Tmax` and `+Tmax Σ_k u_k` -/
+theorem glv_affine_r_c (Tmax c r : Rat) (a : List Rat) (um : F) (uo : List F) (v v0 : Rat)
+    (hv : glv ops ev Tmax c r a um uo = some v) (hv0 : glv ops ev Tmax 0 0 a um uo = some v0) :
+    v = v0 + r * (-Tmax) + c * (Tmax * total ev (um :: uo)) := by
+  have h0 : ev um ≠ 0 := fun h => by
+    rw [(glv_none_iff ops ev Tmax c r a um uo).mpr h] at hv; cases hv
+  rw [glv_value ops ev _ _ _ _ _ _ h0] at hv hv0
+  cases hv; cases hv0
+  ring
+
+/-- role of the interaction vector: entry `k` multiplies population `k` of `main :: others`
+    (changing entry `k` alone by `δ` moves the residual by `−Tmax · δ · u_k(t)`) -/
+theorem dotFrom_set (a : List Rat) (k : Nat) (δ : Rat) (hk : k < a.length) (i : Nat) (us : List F) :
+    dotFrom ev (a.set k (a.getD k 0 + δ)) i us =
+      dotFrom ev a i us + (if i ≤ k ∧ k < i + us.length then δ * ev (us.getD (k - i) ops.zero) else 0) := by
+  induction us generalizing i with
+  | nil => simp [dotFrom]
+  | cons u us ih =>
+    simp only [dotFrom, ih, List.length_cons]
+    by_cases hik : i = k
+    · subst hik
+      have h1 : (a.set i (a.getD i 0 + δ)).getD i 0 = a.getD i 0 + δ := by
+        simp [List.getD_eq_getElem?_getD, hk]
+      have h2 : ¬ (i + 1 ≤ i ∧ i < i + 1 + us.length) := by omega
+      have h3 : (i ≤ i ∧ i < i + (us.length + 1)) := by omega
+      rw [h1, if_neg h2, if_pos h3, Nat.sub_self, List.getD_cons_zero]
+      ring
+    · have h1 : (a.set k (a.getD k 0 + δ)).getD i 0 = a.getD i 0 := by
+        simp [List.getD_eq_getElem?_getD, Ne.symm hik]
+      rw [h1]
+      by_cases hlt : i + 1 ≤ k ∧ k < i + 1 + us.length
+      · have h3 : (i ≤ k ∧ k < i + (us.length + 1)) := by omega
+        have h4 : k - i = (k - (i + 1)) + 1 := by omega
+        rw [if_pos hlt, if_pos h3, h4, List.getD_cons_succ]
+        ring
+      · have h3 : ¬ (i ≤ k ∧ k < i + (us.length + 1)) := by omega
+        rw [if_neg hlt, if_neg h3]
+        ring
+
+/-- the residual vanishes exactly where the (non-logarithmic) GLV equation
+    `u_main' = Tmax · u_main · (r + Σ_k a_k u_k − c Σ_k u_k)` holds — under the guard `u_main(t) ≠ 0` -/
+theorem glv_vanishes_iff (Tmax c r : Rat) (a : List Rat) (um : F) (uo : List F) (h0 : ev um ≠ 0) :
+    glv ops ev Tmax c r a um uo = some 0 ↔
+      ev (ops.dT um) =
+        Tmax * ev um * (r + dotFrom ev a 0 (um :: uo) - c * total ev (um :: uo)) := by
+  rw [glv_value ops ev _ _ _ _ _ _ h0]
+  constructor
+  · intro hh
+    have hh' := Option.some.inj hh
+    have hq : ev (ops.dT um) / ev um = Tmax * (r + dotFrom ev a 0 (um :: uo) - c * total ev (um :: uo)) := by
+      linarith
+    rw [div_eq_iff h0] at hq
+    rw [hq]; ring
+  · intro hh
+    congr 1
+    have hq : ev (ops.dT um) / ev um = Tmax * (r + dotFrom ev a 0 (um :: uo) - c * total ev (um :: uo)) := by
+      rw [div_eq_iff h0, hh]; ring
+    rw [hq]; ring
+
+end GLV
+
+/-! ### mass conservation and Navier–Stokes at a point -/
+
+section Statio
+variable {ops : FieldOps F} {ev : F → Rat}
+
+theorem massConservation_value (h : EvalHom ops ev) (u : Nat → F) :
+    ev (massConservation ops 2 u) = ev (ops.dX 0 (u 0)) + ev (ops.dX 1 (u 1)) := by
+  rw [massConservation_eq_doc]
+  unfold massDoc divergence
+  rw [ev_sum_two h]
+
+/-- the residual vanishes exactly where the field is divergence free -/
+theorem massConservation_vanishes_iff (h : EvalHom ops ev) (u : Nat → F) :
+    ev (massConservation ops 2 u) = 0 ↔ ev (ops.dX 0 (u 0)) + ev (ops.dX 1 (u 1)) = 0 := by
+  rw [massConservation_value h]
+
+theorem navierStokes_value (h : EvalHom ops ev) (nu rho : Rat) (u : Nat → F) (p : F) (k : Nat) (hk : k < 2) :
+    ev (nth ops (navierStokes ops nu rho u p) k) =
+      ev (u 0) * ev (ops.dX 0 (u k)) + ev (u 1) * ev (ops.dX 1 (u k))
+        + 1 / rho * ev (ops.dX k p)
+        - nu * (ev (ops.dX 0 (ops.dX 0 (u k))) + ev (ops.dX 1 (ops.dX 1 (u k)))) := by
+  rw [navierStokes_nth ops nu rho u p k hk]
+  unfold laplacian
+  simp only [ev_sub h, h.add, h.mul, h.smul, ev_sum_two h]
+
+/-- the explicit components are the documented vector formula `(u·∇)u + ρ⁻¹ ∇p − ν Δu` -/
+theorem navierStokes_eq_doc (h : EvalHom ops ev) (nu rho : Rat) (u : Nat → F) (p : F) (k : Nat) (hk : k < 2) :
+    ev (nth ops (navierStokes ops nu rho u p) k) = ev (nsDoc ops nu rho u p k) := by
+  rw [navierStokes_value h nu rho u p k hk]
+  unfold nsDoc advection laplacian
+  simp only [ev_sub h, h.add, h.mul, h.smul, ev_sum_two h]
+
+/-- role of the viscosity and of the density: affine in `ν` (slope `−Δu_k`) and in `ρ⁻¹` (slope `∂k p`) -/
+theorem navierStokes_affine (h : EvalHom ops ev) (nu rho : Rat) (u : Nat → F) (p : F) (k : Nat) (hk : k < 2) :
+    ev (nth ops (navierStokes ops nu rho u p) k) =
+      ev (nth ops (navierStokes ops 0 1 u (ops.zero)) k)
+        + (1 / rho) * ev (ops.dX k p)
+        + nu * (-(ev (ops.dX 0 (ops.dX 0 (u k))) + ev (ops.dX 1 (ops.dX 1 (u k))))) - ev (ops.dX k ops.zero) := by
+  rw [navierStokes_value h nu rho u p k hk, navierStokes_value h 0 1 u ops.zero k hk]
+  ring
+
+/-- the residual vanishes exactly where the stationary momentum equation holds -/
+theorem navierStokes_vanishes_iff (h : EvalHom ops ev) (nu rho : Rat) (u : Nat → F) (p : F) (k : Nat)
+    (hk : k < 2) :
+    ev (nth ops (navierStokes ops nu rho u p) k) = 0 ↔
+      ev (u 0) * ev (ops.dX 0 (u k)) + ev (u 1) * ev (ops.dX 1 (u k)) + 1 / rho * ev (ops.dX k p) =
+        nu * (ev (ops.dX 0 (ops.dX 0 (u k))) + ev (ops.dX 1 (ops.dX 1 (u k)))) := by
+  rw [navierStokes_value h nu rho u p k hk]
+  constructor <;> intro hh <;> linarith
+
+end Statio
+
+
+/-! ### `evaluate`: heterogeneity step, dispatch, parameter layouts -/
+
+section Evaluate
+variable (ops : FieldOps F) (ext : FieldExt F) (evAt : List Rat → F → Rat)
+
+/-- no heterogeneity declared (`eq_params_heterogeneity = None`): the decorator is the identity -/
+theorem evalHetero_none (args : EvalArgs) (p : EqParams) : evalHetero none args p = p := rfl
+
+/-- a declaration without any function (keys declared `None`, or missing) is the identity too -/
+theorem evalHetero_no_function (hd : List (String × Option (EvalArgs → PNode))) (args : EvalArgs)
+    (p : EqParams) (hh : ∀ k f, hd.lookup k ≠ some (some f)) : evalHetero (some hd) args p = p := by
+  unfold evalHetero
+  simp only
+  conv => rhs; rw [← List.map_id p]
+  apply List.map_congr_left
+  intro kv _
+  cases hl : hd.lookup kv.1 with
+  | none => simp
+  | some o =>
+    cases o with
+    | none => simp
+    | some f => exact absurd hl (hh _ _)
+
+/-- a declared function replaces exactly its own key -/
+theorem evalHetero_function (hd : List (String × Option (EvalArgs → PNode))) (args : EvalArgs)
+    (k : String) (v : PNode) (f : EvalArgs → PNode) (hk : hd.lookup k = some (some f)) :
+    evalHetero (some hd) args [(k, v)] = [(k, f args)] := by
+  simp [evalHetero, hk]
+
+theorem lookup_map_leaf (d : List (String × List Rat)) (name : String) :
+    (d.map (fun kv => (kv.1, PNode.leaf kv.2))).lookup name = (d.lookup name).map PNode.leaf := by
+  induction d with
+  | nil => rfl
+  | cons kv d ih =>
+    obtain ⟨k, v⟩ := kv
+    simp only [List.map_cons, List.lookup_cons]
+    cases hk : (name == k) <;> simp [ih]
+
+/-- per-network layout: `eq_params[nn_key]` is the sub-dictionary of that network -/
+theorem getVec_extract_nested (p : EqParams) (k name : String) (d : List (String × List Rat)) (v : List Rat)
+    (hl : p.lookup k = some (.sub d)) (hn : d.lookup name = some v) :
+    getVec (extractParams p k) name = .ok v := by
+  unfold extractParams getVec
+  rw [hl]
+  simp only
+  rw [lookup_map_leaf, hn]
+  rfl
+
+/-- flat layout (`KeyError` branch): the whole dictionary is shared -/
+theorem extractParams_flat (p : EqParams) (k : String) (hl : p.lookup k = none) : extractParams p k = p := by
+  unfold extractParams
+  rw [hl]
+
+theorem getScalar_of_getVec (p : EqParams) (name : String) (r : Rat) (h : getVec p name = .ok [r]) :
+    getScalar p name = .ok r := by
+  unfold getScalar
+  rw [h]
+  rfl
+
+theorem evaluate_burgers (Tmax nu t x : Rat) (u : F) (p : EqParams) (hnu : getScalar p "nu" = .ok nu) :
+    evaluate ops ext evAt Tmax .burgers none (.nonStatio t [x]) (.single [u]) p =
+      .ok [evAt [t, x] (burgers ops Tmax nu u)] := by
+  simp only [evaluate, Builtin.eqType, evalHetero, equationAt, hnu]
+  rfl
+
+theorem evaluate_fisherKPP (Tmax D r g t : Rat) (x : List Rat) (u : F) (p : EqParams)
+    (hD : getScalar p "D" = .ok D) (hr : getScalar p "r" = .ok r) (hg : getScalar p "g" = .ok g) :
+    evaluate ops ext evAt Tmax .fisherKPP none (.nonStatio t x) (.single [u]) p =
+      .ok [evAt (t :: x) (fisherKPP ops ext x.length Tmax D r g u)] := by
+  simp only [evaluate, Builtin.eqType, evalHetero, equationAt, hD, hr, hg]
+  rfl
+
+theorem evaluate_ouFPE (Tmax t x y : Rat) (alpha mu sigma : List Rat) (u : F) (p : EqParams)
+    (ha : getVec p "alpha" = .ok alpha) (hm : getVec p "mu" = .ok mu) (hs : getVec p "sigma" = .ok sigma) :
+    evaluate ops ext evAt Tmax .ouFPE none (.nonStatio t [x, y]) (.single [u]) p =
+      .ok [evAt [t, x, y] (ouFPE ops ext Tmax alpha mu sigma u)] := by
+  simp only [evaluate, Builtin.eqType, evalHetero, equationAt, ha, hm, hs]
+  rfl
+
+/-- GLV for EVERY layout: the parameters are those `extract_params(key_main)` exposes (see
+    `getVec_extract_nested` / `extractParams_flat` for the two layouts) -/
+theorem evaluate_glv (Tmax c r t v : Rat) (a : List Rat) (km : String) (ko : List String)
+    (d : List (String × List F)) (um : F) (uo : List F) (p : EqParams)
+    (hm : scalarNet d km = .ok um) (ho : ko.mapM (scalarNet d) = .ok uo)
+    (hc : getScalar (extractParams p km) "carrying_capacity" = .ok c)
+    (ha : getVec (extractParams p km) "interactions" = .ok a)
+    (hr : getScalar (extractParams p km) "growth_rate" = .ok r)
+    (hv : glv ops (evAt [t]) Tmax c r a um uo = some v) :
+    evaluate ops ext evAt Tmax (.glv km ko) none (.ode t) (.dict d) p = .ok [v] := by
+  simp only [evaluate, Builtin.eqType, evalHetero, equationAt, hm, ho, hc, ha, hr]
+  show (match glv ops (evAt [t]) Tmax c r a um uo with
+    | some v => pure [v]
+    | none => throw "guard: u_main(t) = 0 (log undefined)") = _
+  rw [hv]
+  rfl
+
+theorem evaluate_massConservation (Tmax x y : Rat) (k : String) (d : List (String × List F)) (u : List F)
+    (p : EqParams) (hu : netOf d k = .ok u) :
+    evaluate ops ext evAt Tmax (.massConservation k) none (.statio [x, y]) (.dict d) p =
+      .ok [evAt [0, x, y] (massConservation ops 2 (fun i => nth ops u i))] := by
+  simp only [evaluate, Builtin.eqType, evalHetero, equationAt, hu]
+  rfl
+
+theorem evaluate_navierStokes (Tmax nu rho x y : Rat) (uk pk : String) (d : List (String × List F))
+    (u : List F) (pn : F) (p : EqParams) (hu : netOf d uk = .ok u) (hp : scalarNet d pk = .ok pn)
+    (hrho : getScalar p "rho" = .ok rho) (hnu : getScalar p "nu" = .ok nu) :
+    evaluate ops ext evAt Tmax (.navierStokes uk pk) none (.statio [x, y]) (.dict d) p =
+      .ok ((navierStokes ops nu rho (fun i => nth ops u i) pn).map (evAt [0, x, y])) := by
+  simp only [evaluate, Builtin.eqType, evalHetero, equationAt, hu, hp, hrho, hnu]
+  rfl
+
+/-- Navier–Stokes reads `rho` at the TOP level of `params_dict.eq_params`: a purely per-network layout
+    (no top-level `rho`) is rejected with a `KeyError` -/
+theorem evaluate_navierStokes_needs_top_level_rho (Tmax x y : Rat) (uk pk : String)
+    (d : List (String × List F)) (u : List F) (pn : F) (p : EqParams) (hu : netOf d uk = .ok u)
+    (hp : scalarNet d pk = .ok pn) (hrho : p.lookup "rho" = none) :
+    evaluate ops ext evAt Tmax (.navierStokes uk pk) none (.statio [x, y]) (.dict d) p =
+      .error "KeyError: rho" := by
+  have : getScalar p "rho" = .error "KeyError: rho" := by
+    unfold getScalar getVec
+    rw [hrho]
+    rfl
+  simp only [evaluate, Builtin.eqType, evalHetero, equationAt, hu, hp, this]
+  rfl
+
+/-- dispatch: the arguments must be those of the equation type's `evaluate` signature -/
+theorem evaluate_dispatch (Tmax : Rat) (b : Builtin) (het : Hetero) (args : EvalArgs) (nets : Nets F)
+    (p : EqParams) (v : List Rat)
+    (h : evaluate ops ext evAt Tmax b het args nets p = .ok v) :
+    (b.eqType = .ode ∧ ∃ t, args = .ode t) ∨ (b.eqType = .statio ∧ ∃ x, args = .statio x) ∨
+      (b.eqType = .nonStatio ∧ ∃ t x, args = .nonStatio t x) := by
+  unfold evaluate at h
+  cases hb : b.eqType <;> cases args <;> simp_all
+
+end Evaluate
+
 end Jinns.Equations
+
+/-! ### the model satisfies `Holds.C02` (for every field, point and parameter value) -/
+
+namespace Jinns.Holds
+open Jinns.Calc Jinns.Equations
+
+theorem compareAll_self (name : String) (scale : Rat) (k : Nat) (l : List Rat) :
+    compareAll name 0 scale k l l = none := by
+  induction l generalizing k with
+  | nil => rfl
+  | cons d ds ih =>
+    unfold compareAll
+    by_cases hd : d = 0 <;> simp [hd, ih]
+
+theorem model_holds_burgers (Tmax nu : Rat) (u : Poly) (pt : List Rat) :
+    holdsC02 (.burgers Tmax nu u) pt [Poly.eval (burgers polyOps Tmax nu u) pt] 0 = none := by
+  simp only [holdsC02, documentedAt, documentedFields, Option.map, List.map, burgers_eq_doc]
+  exact compareAll_self _ _ _ _
+
+theorem model_holds_fisherKPP (d : Nat) (Tmax D r g : Rat) (u : Poly) (pt : List Rat) :
+    holdsC02 (.fisherKPP d Tmax D r g u) pt [Poly.eval (fisherKPP polyOps polyExt d Tmax D r g u) pt] 0
+      = none := by
+  have := fisherKPP_eq_doc (polyEvalHom pt) (polyExt_one pt) d Tmax D r g u
+  simp only [holdsC02, documentedAt, documentedFields, Option.map, List.map]
+  rw [← this]
+  exact compareAll_self _ _ _ _
+
+theorem model_holds_ouFPE (Tmax : Rat) (alpha mu sigma : List Rat) (u : Poly) (pt : List Rat) :
+    holdsC02 (.ouFPE Tmax alpha mu sigma u) pt [Poly.eval (ouFPE polyOps polyExt Tmax alpha mu sigma u) pt] 0
+      = none := by
+  have := ouFPE_eq_doc (ext := polyExt) (polyEvalHom pt) Tmax alpha mu sigma u
+  simp only [holdsC02, documentedAt, documentedFields, Option.map, List.map]
+  rw [← this]
+  exact compareAll_self _ _ _ _
+
+theorem model_holds_glv (Tmax c r : Rat) (a : List Rat) (um : Poly) (uo : List Poly) (pt : List Rat) (v : Rat)
+    (hv : glv polyOps (fun p => Poly.eval p pt) Tmax c r a um uo = some v) :
+    holdsC02 (.glv Tmax c r a um uo) pt [v] 0 = none := by
+  rw [glv_eq_doc] at hv
+  simp only [holdsC02, documentedAt, hv]
+  exact compareAll_self _ _ _ _
+
+theorem model_holds_massConservation (u : List Poly) (pt : List Rat) :
+    holdsC02 (.massConservation u) pt
+      [Poly.eval (massConservation polyOps 2 (fun i => nth polyOps u i)) pt] 0 = none := by
+  simp only [holdsC02, documentedAt, documentedFields, Option.map, List.map, massConservation_eq_doc]
+  exact compareAll_self _ _ _ _
+
+theorem model_holds_navierStokes (nu rho : Rat) (u : List Poly) (p : Poly) (pt : List Rat) :
+    holdsC02 (.navierStokes nu rho u p) pt
+      ((navierStokes polyOps nu rho (fun i => nth polyOps u i) p).map (fun f => Poly.eval f pt)) 0 = none := by
+  have h0 := navierStokes_eq_doc (polyEvalHom pt) nu rho (fun i => nth polyOps u i) p 0 (by omega)
+  have h1 := navierStokes_eq_doc (polyEvalHom pt) nu rho (fun i => nth polyOps u i) p 1 (by omega)
+  unfold holdsC02 documentedAt
+  by_cases hr : rho = 0
+  · simp [hr]
+  · simp only [hr, if_false, documentedFields, Option.map, List.map]
+    have e : navierStokes polyOps nu rho (fun i => nth polyOps u i) p =
+        [nth polyOps (navierStokes polyOps nu rho (fun i => nth polyOps u i) p) 0,
+         nth polyOps (navierStokes polyOps nu rho (fun i => nth polyOps u i) p) 1] := rfl
+    rw [e]
+    simp only [List.map]
+    rw [h0, h1]
+    exact compareAll_self _ _ _ _
+
+end Jinns.Holds
